@@ -254,7 +254,7 @@ CLIP = [G + "cli_proc.go"] + CLI
 C12F_LATE = [G + "c12_client.go"] + CLIP
 CHECKS["C10"] = {
     "technique": "real fMP4 stream/track processors, time converter and routine pool as engine threads on harness-built fragments with symbolic base times, durations and PTS offsets",
-    "bounds": {"quick": {"tracks": "H264 video + optional Opus audio at 48000/44100; run.cli.fmp4.codecs: H265 / VP9 / AV1 video + optional MPEG-4 audio", "segments x fragments x samples": "1 x 1..2 x 1..2", "base times": "[0, 2^40]", "durations": "[0, 2^20] / [0, 2^16]", "PTS offsets": "[-2^16, 2^16]",
+    "bounds": {"quick": {"many fragments": "one segment of 13 fragments x 1 sample (20 in the thorough tier)", "tracks": "H264 video + optional Opus audio at 48000/44100; run.cli.fmp4.codecs: H265 / VP9 / AV1 video + optional MPEG-4 audio", "segments x fragments x samples": "1 x 1..2 x 1..2", "base times": "[0, 2^40]", "durations": "[0, 2^20] / [0, 2^16]", "PTS offsets": "[-2^16, 2^16]",
                          "PROGRAM-DATE-TIME": "present or not per segment"},
                "thorough": {"segments x fragments x samples": "1..2 x 1..2 x 1..2"}},
     "assumptions": ["fmp4 Init/Part Marshal+Unmarshal are mutually inverse (symbolically an identity on the value; natively the real serialisation)", "PartSample.GetH264 returns the payload as one NAL unit (symbolic build)",
@@ -275,6 +275,10 @@ CHECKS["C10"]["runs"].append({"name": "run.cli.fmp4.codecs", "files": CLIP, "fn"
 CHECKS["C10"]["runs"].append({"name": "run.cli.rendition", "files": [G + "c10_rendition.go"] + C12F_LATE, "fn": "VerifH_C10_rendition", "workers": 16,
                               "params_quick": {"MAXSEGS": 2, "BASEBITS": 30}, "params_thorough": {"MAXSEGS": 3, "BASEBITS": 40}, "reach": ["ran", "end"],
                               "budget_quick": 600, "budget_thorough": 7200, "qtimeout": 60000, "replay_timeout": 120})
+# a segment split into many fragments (chunked CMAF: one moof/mdat per frame), more than the stream processor's completion channel holds
+CHECKS["C10"]["runs"].append({"name": "run.cli.fmp4.manyfrags", "files": CLIP, "fn": "VerifH_C10_fmp4", "workers": 16,
+                              "params": {"DATETIME": 0, "MAXSEGS": 1, "MAXSAMPLES": 1, "PTSOFFBITS": 0}, "params_quick": {"FIXFRAGS": 13}, "params_thorough": {"FIXFRAGS": 20},
+                              "reach": ["ran"], "budget_quick": 600, "budget_thorough": 3600, "qtimeout": 60000})
 CHECKS["C13"] = {
     "technique": "the same real client stages on well-formed-but-unexpected parse results (every fMP4 codec kind, time scale 0, track-id permutations, empty fragments, absurd counts and values); engine panic / deadlock checks are the assertion",
     "bounds": {"quick": {"focus groups": "codec kinds (8) alone or beside video; time scales {90000,0,1,2^32-1}; init/fragment track ids in 1..4; 10..11 tracks; 0..2 fragments with/without tracks and samples",
